@@ -32,14 +32,17 @@ for name in sorted(os.listdir(S)):
     meta = {
         "property": name[:3], "round": rnd,
         "summary": agent.get("summary"), "breaks": agent.get("breaks"), "needs": agent.get("needs"),
-        "authoring_agent_ran": agent.get("ran"),
+        "authoring_agent_ran": agent.get("ran") or agent.get("authoring_agent_ran"),
         "confirmed_by_main_session": CONFIRM + (" (log: confirm.log)" if os.path.exists(os.path.join(d, "confirm.log")) else ""),
         "first_run": first.get("result", "?"), "first_run_detail": first.get("detail", ""),
         "strengthened": first.get("strengthened", ""),
         "now": rv.get("result", "not re-run"), "now_summary": rv.get("summary", ""), "now_violation": rv.get("violation", ""),
         "now_repo_head": rv.get("repo_head", ""), "now_command": rv.get("command", ""),
     }
-    json.dump(meta, open(os.path.join(d, "meta.json"), "w"), indent=1)
+    mp = os.path.join(d, "meta.json")
+    if rnd >= 8 and os.path.exists(mp):  # round 8 on: tools/round8.sh records what was actually run per change
+        meta["confirmed_by_main_session"] = json.load(open(mp)).get("confirmed_by_main_session", meta["confirmed_by_main_session"])
+    json.dump(meta, open(mp, "w"), indent=1)
     rows.append((name, meta))
 
 with open(os.path.join(S, "RESULTS.md"), "w") as f:
